@@ -29,7 +29,9 @@ inductive Pc where
   | tsRead (r o : Nat) | tsMark (r o : Nat) (bytes : List Nat)      -- sites 24, 25/26
   | rxState (i : Nat) (p : List Nat) (idx : Nat)            -- site 27
   | rxMarker (i : Nat) (p : List Nat) (idx : Nat)           -- site 28
-  | rxClaim (k : Nat) (p : List Nat) | rxCopy (k : Nat) (p : List Nat) | rxMark (k : Nat) | rxWake (k : Nat)  -- 29..32
+  | rxClaim (k : Nat) (p : List Nat) (idx : Nat) | rxCopy (k : Nat) (p : List Nat) | rxMark (k : Nat) | rxWake (k : Nat)  -- 29..32
+  | rxVerify (k : Nat) (p : List Nat) (idx : Nat)      -- site 28 again: marker re-checked while the frame is held
+  | rxUnclaim (k : Nat)                               -- site 33: RxBusy → Sent hand-back
   | poWaker (r : Nat) | poCas (r : Nat) | poRelease (r : Nat) | poRetry (r : Nat) (was : St) (deadline' : Nat)  -- 13,14,15,16 (the new timer is created before site 16)
   | dfStore (r : Nat)                                       -- site 15
   | fpRead (r code idx : Nat)                               -- site 18
@@ -261,13 +263,21 @@ def stepThread (s : Sys) (t : Thread) : Sys × Thread :=
     else if i + 1 < s.n then (s, { t with pc := .rxState (i + 1) p idx })
     else (s, t.done "err.decode")
   | .rxMarker i p idx =>
-    if (s.slot i).first = idx then (s, { t with pc := .rxClaim i p })
+    if (s.slot i).first = idx then (s, { t with pc := .rxClaim i p idx })
     else if i + 1 < s.n then (s, { t with pc := .rxState (i + 1) p idx })
     else (s, t.done "err.decode")
-  | .rxClaim k p =>
+  | .rxClaim k p idx =>
     let x := s.slot k
-    if x.st = .sent then (s.setSlot k { x with st := .rxBusy }, { t with pc := .rxCopy k p })
+    if x.st = .sent then (s.setSlot k { x with st := .rxBusy }, { t with pc := .rxVerify k p idx })
     else (s, t.done s!"err.invalidindex.{k}")
+  | .rxVerify k p idx =>
+    -- the request found by the lookup may have been dropped and the slot re-used since: the marker
+    -- is stable now that the frame is held
+    if (s.slot k).first = idx then (s, { t with pc := .rxCopy k p })
+    else (s, { t with pc := .rxUnclaim k })
+  | .rxUnclaim k =>
+    let x := s.slot k
+    ((if x.st = .rxBusy then s.setSlot k { x with st := .sent } else s), t.done s!"err.invalidindex.{k}")
   | .rxCopy k p =>
     let x := s.slot k
     if s.data - 16 < p.length then (s, t.done "err.internal")
